@@ -159,4 +159,22 @@ PROPS["C01"] = {
     "level_note": "Trusted: Coq kernel/vm_compute; Model/Pipes.v validated on explored shapes; boxing glue; type-level facts are rustc's.",
 }
 
+_REG = "27 registry entries (Model/Registry.v): mean (N=1,3), mean_variance, exp mean, exp mean_variance, median (N=3,4), exp median, max, min, bounds, threshold, schmitt (two configs), debounce, slopes, peaks, convolve, delay, differentiate, integrate, hampel (f64, two thresholds), alpha_beta, kalman (two configs), analyze, synthesize, Cache<Integrate>, Cache<Median>, UnitSystem<Integrate> over SI metres"
+PROPS["C12"] = {
+    "corr": "Model.Registry.{mstep,mreset} vs Filter::filter / Reset::reset of every resettable filter; config()/config_ref() before and after; Cache::cached() after reset",
+    "rule": _REG + "; for each: every history over {0,2,5} of length 0..3 (0..4 thorough) x 2 random probes, plus seeded random long histories; the real filter is fed the history, reset(), then the probe, and compared with the model AND with a freshly constructed real filter on the same probe; non-trivial = history of at least 2 samples on which a non-reset filter would answer differently (Check/C12.v)",
+    "trusted": _RAT + ["uniform encoding of inputs/outputs/configurations as lists of rationals (harness/src/props/reg.rs, Model/Registry.v)", "Hampel is run in f64 on small integers"],
+    "assumptions": [],
+    "level_text": "Theorems: for all 27 registry entries, every configuration and every history, reset yields exactly the freshly constructed state for the same configuration, hence history-reset-probe = fresh-probe for every probe; the caching and unit wrappers inherit this from ANY resettable inner filter. The theorems are short (the model transliterates each Rust reset impl); the weight is on the tie, which runs every entry's real reset() against a freshly built real filter and against the model.",
+    "level_note": "Trusted: Coq kernel/vm_compute; Model/Registry.v (per-entry transliteration of reset: Self::default(), with_config(self.config), with_config(self.config()) for the wavelet pair, field-wise for Cache/UnitSystem, identity for Threshold) validated on explored cases.",
+}
+PROPS["C20"] = {
+    "corr": "Model.Registry.{mclone,mguts,m_cache,m_unit} vs Clone / IntoGuts+FromGuts of every filter, filters::cache::Cache, filters::unit_system::UnitSystem, sources::unit_system, sinks::unit_system",
+    "rule": _REG + "; for each: histories as in C12; at the end of the history the filter is copied (clone on even cases, into_guts+from_guts on odd ones), the ORIGINAL is fed continuation A and only then the COPY is fed a different continuation B (which exposes shared or hidden state); both are compared with the model continued from the split state and with freshly built UNWRAPPED reference filters fed history++A resp. history++B (so the wrappers' transparency is checked too); Cache::cached() after the history; unit-preserving source and sink wrappers on the same histories; non-trivial = history of at least 2 samples and A-outputs differ from B-outputs (Check/C20.v)",
+    "trusted": _RAT + ["uniform encoding as in C12", "unit preservation itself is a type-level fact (rustc)"],
+    "assumptions": [],
+    "level_text": "Theorems: in the model a clone and a guts round trip are the identity on states (the model state IS the guts tuple), so a copy continues exactly like the original and the copies are independent; the caching wrapper over ANY inner machine returns exactly the inner outputs and cached() is the last output (none initially); the unit wrapper is the inner filter on the unit-less value. These are immediate in a pure model; the assurance comes from the tie, which exercises every real filter's Clone and FromGuts/IntoGuts at every split point with diverging continuations.",
+    "level_note": "Trusted: Coq kernel/vm_compute; Model/Registry.v validated on explored cases; a pure functional model cannot itself exhibit aliasing -- that is observed on the implementation side by feeding original and copy different continuations.",
+}
+
 NOT_YET = {}
